@@ -75,20 +75,10 @@ fn loc_text(file: &str, c: &UnOptCode) -> String {
 }
 
 fn flush_pieces(cur: &mut Cursor, out: &mut Vec<u8>, err: &mut Vec<u8>, clause: &'static str, note: &str) {
-    if !out.is_empty() {
-        let mut b = b"[stdout] ".to_vec();
-        b.extend_from_slice(out);
-        b.push(b'\n');
-        cur.expect(Piece::Exact(b), clause, format!("{}: program stdout delivered once", note));
-        out.clear();
-    }
-    if !err.is_empty() {
-        let mut b = b"[stderr] ".to_vec();
-        b.extend_from_slice(err);
-        b.push(b'\n');
-        cur.expect(Piece::Exact(b), clause, format!("{}: program stderr delivered once", note));
-        err.clear();
-    }
+    // everything the program wrote since the last delivery, each character once, before the next prompt
+    cur.expect(Piece::Output { out: out.clone(), err: err.clone() }, clause, format!("{}: program output delivered once", note));
+    out.clear();
+    err.clear();
 }
 
 /// Simulate the debugger model over the script; with a transcript, check it piece by piece.
@@ -470,7 +460,7 @@ impl C11 {
                 v = Some(Violation::new(&format!("real-{}", x.clause), x.expected, x.observed));
             } else if r.status != Some(want_status) {
                 v = Some(Violation::new("real-ending", format!("status {}", want_status), r.describe()));
-            } else if res.end != DbgEnd::EncodingError && (res.pos != r.stdout.len() || !r.stderr.is_empty()) {
+            } else if res.end != DbgEnd::EncodingError && (crate::transcript::skip_log_lines(&r.stdout, res.pos) != r.stdout.len() || !r.stderr.is_empty()) {
                 v = Some(Violation::new(
                     "real-extra-output",
                     "nothing after the last expected piece, empty stderr",
@@ -637,7 +627,7 @@ impl Property for C11 {
             }
             return out;
         }
-        if res.pos != transcript.len() {
+        if crate::transcript::skip_log_lines(&transcript, res.pos) != transcript.len() {
             out.violation = Some(Violation::new(
                 "extra-output",
                 "transcript ends after the last expected piece",
